@@ -21,6 +21,10 @@ CHECK = {
          "cases": {"quick": 960, "thorough": 30000},
          "params": {"schedules": {"quick": 3, "thorough": 6}, "maxLen": {"quick": 300007, "thorough": 300007}},
          "case_timeout": 300},
+        {"name": "tsanshim", "variant": "tsanshim", "harness": "c13_parallel.cpp", "tsan_advisory_only": True,
+         "cases": {"quick": 240, "thorough": 6000}, "env": {"VSHIM_THREADS": "3"},
+         "params": {"schedules": 1, "maxLen": {"quick": 70000, "thorough": 140000}},
+         "case_timeout": 600, "max_workers": 4},
         {"name": "conc", "variant": "asan", "harness": "c13_parallel.cpp",
          "cases": {"quick": 6000, "thorough": 300000},
          "params": {"mode": "conc"}, "case_timeout": 120, "max_workers": 5},
